@@ -30,11 +30,18 @@ Inductive case :=
    real Pushes issued back to back meanwhile: versions of the connection's LastPushContext and of the
    global context at the end; [missed] = a Push newer than LastPushContext returned (hence had
    enumerated the clients) while the connection was not yet registered, and nothing newer followed *)
-| Race (id : N) (lpc global : N) (missed : bool).
+| Race (id : N) (lpc global : N) (missed : bool)
+(* a schedule of the small-step system replayed on the REAL connection table and push queue:
+   LConn = the next setup step (proxy.LastPushContext = s.globalPushContext() ; s.addCon ;
+   con.MarkInitialized), LCommit = a new context becomes the global one, LSnap = the real
+   AdsPushAll/StartPush with that context.  Observed at the end: the connection's LastPushContext
+   (0 while unset) and the version of the push request queued for it (the queue merges requests
+   and keeps the newest context; None = no entry) *)
+| Enq (id : N) (g : N) (ls : list lbl) (lpc : N) (q : option N).
 
 Definition case_id c :=
   match c with
-  | Sess id _ _ _ _ => id | Step id => id | E2E id _ _ _ _ _ _ _ _ => id | Order id _ _ => id | Race id _ _ _ => id
+  | Sess id _ _ _ _ => id | Step id => id | E2E id _ _ _ _ _ _ _ _ => id | Order id _ _ => id | Race id _ _ _ => id | Enq id _ _ _ _ => id
   end.
 
 (* ------------------------------------------------------------------ helpers *)
@@ -207,6 +214,15 @@ Definition model_fail (c : case) : option N :=
     (* the model allows both outcomes (C05_no_snapshot_missed_refuted / _partial); a missed push
        leaves the connection on an older context than the global one *)
     if negb missed || (lpc <? global) then None else Some id
+  | Enq id g ls lpc q =>
+    let s := yrun (sys0 g) ls in
+    if (lpc =? y_lpc s) &&
+       match q, y_queue s with
+       | None, [] => true
+       | Some v, _ :: _ => v =? last (y_queue s) 0
+       | _, _ => false
+       end
+    then None else Some id
   end.
 
 Definition prop_fail (c : case) : option N :=
@@ -228,6 +244,13 @@ Definition prop_fail (c : case) : option N :=
        read before it is registered; a push commits its context before it enumerates the clients *)
     if before 1 2 conn && before 2 3 conn && before 4 5 push then None else Some id
   | Race id _ _ missed => if missed then Some id else None
+  | Enq id g ls _ q =>
+    (* every context committed after addCon whose Push has enumerated the clients is in the
+       connection's queue (or superseded there by a newer one), initialised or not *)
+    let s := yrun (sys0 g) ls in
+    let held := match q with Some v => v | None => 0 end in
+    if forallb (fun v => match y_pending s with Some p => (p =? v) | None => false end || (v <=? held)) (y_post s)
+    then None else Some id
   end.
 
 Definition model_ok (c : case) : bool := match model_fail c with None => true | Some _ => false end.
